@@ -169,11 +169,11 @@ type recBackend struct {
 	putLate bool     // a failing Put consumes all data and fails at commit time, after the source was released
 	sh      *streams // shared with the other replica
 	waits   int      // late Put failures that gave up waiting for the release of the source (should stay 0)
-	mu     sync.Mutex
-	store  map[int][]byte
-	cnt    map[string]int
-	faults map[string]codes.Code
-	log    []call
+	mu      sync.Mutex
+	store   map[int][]byte
+	cnt     map[string]int
+	faults  map[string]codes.Code
+	log     []call
 }
 
 func newRecBackend(name string, u *universe, late, stream, putLate bool, sh *streams) *recBackend {
@@ -224,7 +224,8 @@ func (b *recBackend) errBuffer(d digest.Digest, err error) buffer.Buffer {
 	return buffer.NewBufferFromError(err)
 }
 
-func (v view) read(meth string, d digest.Digest) ([]byte, buffer.Buffer) {
+// read looks up d; errors are rendered as buffers for digest bd (the digest the caller will read).
+func (v view) read(meth string, d, bd digest.Digest) ([]byte, buffer.Buffer) {
 	b := v.b
 	b.mu.Lock()
 	defer b.mu.Unlock()
@@ -232,18 +233,18 @@ func (v view) read(meth string, d digest.Digest) ([]byte, buffer.Buffer) {
 	li, err := b.begin(meth, v.via, []int{k})
 	if err != nil {
 		b.log[li].saidNF = status.Code(err) == codes.NotFound
-		return nil, b.errBuffer(d, err)
+		return nil, b.errBuffer(bd, err)
 	}
 	data, ok := b.store[k]
 	if !ok {
 		b.log[li].saidNF = true
-		return nil, b.errBuffer(d, status.Errorf(codes.NotFound, "absent %s %d", b.name, k))
+		return nil, b.errBuffer(bd, status.Errorf(codes.NotFound, "absent %s %d", b.name, k))
 	}
 	return data, nil
 }
 
 func (v view) Get(ctx context.Context, d digest.Digest) buffer.Buffer {
-	data, eb := v.read("get", d)
+	data, eb := v.read("get", d, d)
 	if eb != nil {
 		return eb
 	}
@@ -251,7 +252,7 @@ func (v view) Get(ctx context.Context, d digest.Digest) buffer.Buffer {
 }
 
 func (v view) GetFromComposite(ctx context.Context, parent, child digest.Digest, slicer slicing.BlobSlicer) buffer.Buffer {
-	data, eb := v.read("getc", parent)
+	data, eb := v.read("getc", parent, child)
 	if eb != nil {
 		return eb
 	}
@@ -333,14 +334,19 @@ func (v view) GetCapabilities(ctx context.Context, in digest.InstanceName) (*rem
 	return &remoteexecution.ServerCapabilities{}, nil
 }
 
-// childSlicer marks the data it was handed, so that the reply shows that the
+// childSlicer: the child of a genuine parent blob is the genuine blob of the
+// child digest (so that validating buffers accept it); the child of any other
+// parent value is that value marked "/c", so that the reply shows that the
 // child came out of the slicer.
-type childSlicer struct{}
+type childSlicer struct{ u *universe }
 
-func (childSlicer) Slice(b buffer.Buffer, child digest.Digest) (buffer.Buffer, []slicing.BlobSlice) {
+func (c childSlicer) Slice(b buffer.Buffer, child digest.Digest) (buffer.Buffer, []slicing.BlobSlice) {
 	data, err := b.ToByteSlice(1 << 20)
 	if err != nil {
 		return buffer.NewBufferFromError(err), nil
+	}
+	if strings.HasPrefix(string(data), "c11-object-") {
+		return buffer.NewValidatedBufferFromByteSlice(c.u.content[c.u.id(child)]), nil
 	}
 	return buffer.NewValidatedBufferFromByteSlice(append(append([]byte{}, data...), "/c"...)), nil
 }
